@@ -80,8 +80,8 @@ def regSpec (env : List (Ty Nat)) (ops : List ObsOp) (fin : PortableRegistry) (e
     -- every definition evaluated at most once, and exactly the reachable ones
     let mut k := 0
     for c in evals do
-      -- the PhantomData identity is the real std type: its evaluations are not counted by the harness
-      if phantom == some k then
+      -- nodes from index `phantom` on are real std identities (PhantomData, (), str, u8): the harness cannot count their evaluations
+      if (phantom.map (fun p => decide (p ≤ k))).getD false then
         k := k + 1
         continue
       if c > 1 then errs := errs ++ [s!"C05: type_info() of identity {k} evaluated {c} times"]
@@ -132,7 +132,7 @@ def registry : P Verdict := do
     | .ok s =>
       if toPortable s != fin then pure (.diff "final registry differs from the model's")
       else if Codec.encode fin != bytes then pure (.diff "C06: library bytes differ from the V14 layout encoder")
-      else if (List.range env.length).map (fun k => if phantom == some k then 0 else s.evals.count k) != evals then pure (.diff "evaluation counts differ from the model's")
+      else if (List.range env.length).map (fun k => if (phantom.map (fun p => decide (p ≤ k))).getD false then 0 else s.evals.count k) != evals then pure (.diff "evaluation counts differ from the model's")
       else
         -- permuted histories through the model as well
         let bad := perms.any (fun p =>
